@@ -1,5 +1,5 @@
 SPECIFICATION Spec
-CONSTANTS N = 2  Max = 2  U = 2  STO = 3  ITO = 2  ASTO = 2  AITO = 1  MaxT = 6  MaxOps = 8
+CONSTANTS N = 2  Max = 2  U = 2  STO = 3  ITO = 2  ASTO = 2  AITO = 1  MaxT = 6  MaxOps = 6
 INVARIANTS Capacity Walled OneHolder StatsBalance EventChain AuthSticky Agree Consistent GhostSane
 VIEW View
 CHECK_DEADLOCK FALSE
